@@ -159,6 +159,7 @@ func multiBody(stack []Spec, exes []ExeSpec, o MultiOpts) func() {
 							env.obs()
 							x.CancelTick0, x.CancelTime = env.Tick, vrt.Elapsed()
 							x.DoneBeforeCancel = res.IsDone()
+							x.AsyncCancel = true
 							res.Cancel()
 							env.obs()
 							x.CancelTick1 = env.Tick
